@@ -452,10 +452,28 @@ fn main() {
             }
         }
         "parse" => {
+            // argv[3] = index of the first vector to run, argv[4] = "flush": write every line at once
+            // (used to pin down a vector on which the parser crashes or hangs: SIGALRM after 10 s
+            // without progress ends the process with status 43)
+            let start: usize = argv.get(3).and_then(|s| s.parse().ok()).unwrap_or(0);
+            let flush = argv.get(4).map(String::as_str) == Some("flush");
             let f = std::io::BufReader::new(std::fs::File::open(&argv[2]).unwrap());
             let helps: Vec<Vec<(Value, String)>> = (0..=NSHAPES).map(|s| if s == 0 { vec![] } else { helps_of(s) }).collect();
+            extern "C" fn on_alarm(_sig: i32) {
+                unsafe { libc::_exit(43) }
+            }
+            unsafe {
+                libc::signal(libc::SIGALRM, on_alarm as usize);
+            }
             for (i, line) in f.lines().enumerate() {
-                let v: Value = serde_json::from_str(&line.unwrap()).unwrap();
+                let line = line.unwrap();
+                if i < start {
+                    continue;
+                }
+                unsafe {
+                    libc::alarm(10);
+                }
+                let v: Value = serde_json::from_str(&line).unwrap();
                 let s = v["s"].as_u64().unwrap() as usize;
                 // every argument is a NUL-terminated byte string, as the start-up code hands them over
                 let bufs: Vec<Vec<u8>> = v["a"].as_array().unwrap().iter()
@@ -472,7 +490,13 @@ fn main() {
                 let mut r = dispatch(s, &args, &helps[s]);
                 r["i"] = json!(i);
                 out.ev(&r);
+                if flush {
+                    out.flush();
+                }
                 drop(bufs);
+            }
+            unsafe {
+                libc::alarm(0);
             }
         }
         _ => panic!("usage"),
